@@ -5,9 +5,11 @@ package main
 
 import (
 	"bytes"
+	"encoding/base64"
 	"encoding/json"
 	"fmt"
 	"sort"
+	"strconv"
 	"strings"
 
 	"verif/harness/cborx"
@@ -420,7 +422,92 @@ type decodeJSONEv struct {
 	Get  map[string]Ret   `json:"get"`
 	CGet []map[string]Ret `json:"cget"`
 	VRet Ret              `json:"vret"`
-	Outs []string         `json:"outs"` // distinct dispatch outcomes over repeated calls (Go map order)
+	Outs []string         `json:"outs"`      // distinct dispatch outcomes over repeated calls (Go map order)
+	Fold bool             `json:"foldAlias"` // some member name equals a known one only up to case folding (no value verdict)
+}
+
+// jsonDesc renders a descriptor of spec/Gen_Json.tla as JSON text.
+func (c Conc) jsonDesc(d Desc) string {
+	q := func(s string) string { b, _ := json.Marshal(s); return string(b) }
+	switch d.D {
+	case "null":
+		return "null"
+	case "bool":
+		return "true"
+	case "b64":
+		return q(base64.StdEncoding.EncodeToString(c.bytes(d.N, d.B0)))
+	case "b64url":
+		b := c.bytes(d.N, 2)
+		for i := range b { // make sure the URL-safe alphabet shows
+			b[i] |= 0xfb
+		}
+		return q(base64.RawURLEncoding.EncodeToString(b))
+	case "notb64":
+		return q("@@@not base64@@@")
+	case "num":
+		return strconv.FormatInt(d.V, 10)
+	case "lit":
+		return d.S[0].(string)
+	case "strShape":
+		return q(c.text(d.S))
+	case "strLen":
+		return q(c.str(d.N, d.B0))
+	case "strName":
+		return q(d.S[0].(string))
+	case "arr":
+		parts := []string{}
+		for _, x := range d.S {
+			parts = append(parts, c.jsonDesc(descFromAny(x)))
+		}
+		return "[" + strings.Join(parts, ",") + "]"
+	case "obj":
+		parts := []string{}
+		for _, x := range d.S {
+			kv := x.(map[string]any)
+			it := descFromAny(kv["it"])
+			if it.D == "none" {
+				continue
+			}
+			parts = append(parts, q(kv["k"].(string))+":"+c.jsonDesc(it))
+		}
+		return "{" + strings.Join(parts, ",") + "}"
+	}
+	panic("jsonDesc " + d.D)
+}
+
+var knownJSONNames = func() map[string]bool {
+	m := map[string]bool{}
+	for _, p := range []string{"P1", "P2"} {
+		for _, n := range jsonNames[p] {
+			m[n] = true
+		}
+	}
+	for _, n := range []string{"measurement-type", "measurement-value", "version", "signer-id", "measurement-description"} {
+		m[n] = true
+	}
+	return m
+}()
+
+// foldAlias: does the document (at any depth) carry a member whose name matches a known one only case-insensitively?
+func foldAlias(m JMember) bool {
+	for _, x := range m.Obj {
+		if !knownJSONNames[x.Name] {
+			for k := range knownJSONNames {
+				if strings.EqualFold(k, x.Name) {
+					return true
+				}
+			}
+		}
+		if foldAlias(x) {
+			return true
+		}
+	}
+	for _, x := range m.Arr {
+		if foldAlias(x) {
+			return true
+		}
+	}
+	return false
 }
 
 func init() {
@@ -438,7 +525,7 @@ func init() {
 			if !ok {
 				return
 			}
-			ev := decodeJSONEv{B: b, Op: "DecodeJSON", Src: src, Doc: tree, Reg: reg, Outs: []string{}}
+			ev := decodeJSONEv{B: b, Op: "DecodeJSON", Src: src, Doc: tree, Reg: reg, Outs: []string{}, Fold: foldAlias(tree)}
 			c, derr, pan := guardDec(func() (psatoken.IClaims, error) { return psatoken.DecodeClaimsFromJSON(append([]byte{}, doc...)) })
 			ev.Dec = mkDecRes(c, derr, pan)
 			c2, verr, pan2 := guardDec(func() (psatoken.IClaims, error) {
@@ -527,6 +614,90 @@ func init() {
 						v.edit(m2, p)
 						doc, _ := json.Marshal(m2)
 						emit(srcs[si]+":"+v.name, doc)
+					}
+				}
+			}
+		}
+		// value classes per member (spec/Gen_Json.tla): singles on three bases, pairs on the full base, extras
+		if a.In2 != "" {
+			var jd struct {
+				Dom    map[string]map[string][]any `json:"dom"`
+				Extras []any                       `json:"extras"`
+			}
+			loadJSON(a.In2, &jd)
+			render := func(base map[string]json.RawMessage, order []string) []byte {
+				parts := []string{}
+				for _, k := range order {
+					if v, ok := base[k]; ok {
+						kb, _ := json.Marshal(k)
+						parts = append(parts, string(kb)+":"+string(v))
+					}
+				}
+				return []byte("{" + strings.Join(parts, ",") + "}")
+			}
+			for _, p := range []string{"P1", "P2"} {
+				claims := []string{}
+				for _, c := range claimOrder {
+					if _, ok := jsonNames[p][c]; ok && c != "profile" && !(p == "P2" && c == "noSw") {
+						claims = append(claims, c)
+					}
+				}
+				for _, kind := range []string{"full", "minimal", "nosw"} {
+					if p == "P2" && kind == "nosw" {
+						continue
+					}
+					var base map[string]json.RawMessage
+					if err := json.Unmarshal(cc.DocJSON(d.base(p, kind)), &base); err != nil {
+						fatal("base document: %v", err)
+					}
+					order := []string{}
+					for k := range base {
+						order = append(order, k)
+					}
+					sort.Strings(order)
+					with := func(b map[string]json.RawMessage, ord []string, name string, it Desc) (map[string]json.RawMessage, []string) {
+						nb := map[string]json.RawMessage{}
+						for k, v := range b {
+							nb[k] = v
+						}
+						no := append([]string{}, ord...)
+						if it.D == "none" {
+							delete(nb, name)
+							return nb, no
+						}
+						if _, ok := nb[name]; !ok {
+							no = append(no, name)
+						}
+						nb[name] = json.RawMessage(cc.jsonDesc(it))
+						return nb, no
+					}
+					for _, c := range claims {
+						for _, x := range jd.Dom[p][c] {
+							nb, no := with(base, order, jsonNames[p][c], descFromAny(x))
+							emit("jsingle:"+kind, render(nb, no))
+						}
+					}
+					if kind != "full" {
+						continue
+					}
+					for i, c1 := range claims {
+						for _, c2 := range claims[i+1:] {
+							for _, x1 := range jd.Dom[p][c1] {
+								for _, x2 := range jd.Dom[p][c2] {
+									if a.Tier != "thorough" && cc.r.Intn(12) != 0 {
+										continue
+									}
+									nb, no := with(base, order, jsonNames[p][c1], descFromAny(x1))
+									nb, no = with(nb, no, jsonNames[p][c2], descFromAny(x2))
+									emit("jpair", render(nb, no))
+								}
+							}
+						}
+					}
+					for _, x := range jd.Extras {
+						kv := x.(map[string]any)
+						nb, no := with(base, order, kv["k"].(string), descFromAny(kv["it"]))
+						emit("jextra", render(nb, no))
 					}
 				}
 			}
